@@ -1,27 +1,55 @@
 """C14 — anomaly scores use the climatology at the same coordinates."""
+import climx
 import datagen as dg
 import props.c01 as c01
 from common import tokens_close
 
 ID = "C14"
-TARGETS = ["Proofs.C14"]
+TARGETS = ["Proofs.C14", "Proofs.C14Extra"]
 GEN_PREFIXES = []
 THEOREMS = {"Proofs.C14": ["VerifModel.C14." + t for t in [
     "C14_subtract", "C14_divide", "C14_only_obs_fcst", "C14_no_clim", "C14_same_case", "C14_dropped",
-    "C14_clim_same_for_all", "C14_not_scored", "C14_shift_invariant"]]}
-TRUSTED_BASE = c01.TRUSTED_BASE + ["-c/-C option parsing is C13's subject; Data(clim=..., clim_type=...) is called directly"]
-ASSUMPTIONS = c01.ASSUMPTIONS
+    "C14_clim_same_for_all", "C14_not_scored", "C14_shift_invariant"]],
+            "Proofs.C14Extra": ["VerifModel.C14." + t for t in [
+    "allInputs_extra", "C14_extra_dims", "caseValid_extra", "C14_extra_same_cases_partial", "C14_extra_values",
+    "C14_shiftInvariant_metrics", "C14_extra_getScores_partial", "C14_extra_init", "C14_extra_score",
+    "C14_divide_zero_dropped", "C14_missing_clim_dropped", "Witness.C14_extra_needs_fcst"]]}
+TRUSTED_BASE = c01.TRUSTED_BASE + ["-c/-C option parsing is C13's subject; Data(clim=..., clim_type=...) is called directly "
+                                   "(except in cli.climchain, which goes through verif.driver.run; there the text reader "
+                                   "(C09), the csv table writer with its 6 significant digits (C12) and -T pre-aggregation "
+                                   "(C15) are trusted: that stream is metamorphic, implementation only)"]
+ASSUMPTIONS = c01.ASSUMPTIONS + ["extra-input equivalence (Proofs/C14Extra.lean): subtract mode, the request contains the "
+                                 "forecast (necessary: C14_extra_needs_fcst), a selection other than the whole 3-D array, "
+                                 "stored arrays of the declared shape (wfInput); exact rationals (no float rounding / overflow "
+                                 "in obs - k)"]
 RULE = ("data.clim: generated datasets of 1-3 scored inputs plus a climatology of arbitrary coverage/missingness (zeros for "
         "-C), subtract and divide, all field combinations incl. the PIT, stored CDF / quantile columns, ensemble members and "
         "other scores (never adjusted), a fifth with -obs FIELD / -fcst FIELD (the climatology's -fcst field is "
         "subtracted), all axes; data.climx: -c K versus K as "
-        "an additional input for mae/rmse/bias/stderror on axes no/leadtime/location (implementation-only metamorphic)")
+        "an additional input for mae/rmse/bias/stderror on axes no/leadtime/location (implementation-only metamorphic); "
+        "data.climcols: the same request list on Data(A.., clim=K) and on Data(A.. + [K]) (model = code on both; exact "
+        "Fraction oracle: same number of cases, untouched other fields, equal MAE / bias / MSE / error variance whenever "
+        "the request contains the forecast — the theorem's domain condition; requests for the observation alone are "
+        "in the list and nothing is demanded of them); data.climwit: the witness of C14_extra_needs_fcst on the real "
+        "code (corpus/C14.txt); data.climinf: several ±inf in the climatology's forecast / observation, -c and -C; "
+        "cli.climchain: verif A [B] -c K -m mae|rmse|bias|stderror -x AX [-T n] -type csv against the first columns of "
+        "verif A [B] K ... through verif.driver.run on text files (legend without / with K)")
 EXHAUSTIVE = {"quick": False, "thorough": False}
 LEVEL_TEXT = ("Lean theorems: the climatology adjustment subtracts (divides by) the climatology vector position by position for "
               "obs and fcst and leaves every other field unchanged; a missing climatology value or a zero divisor makes the "
               "case invalid; the climatology vector does not depend on the scored input; requests for the climatology's own "
               "index are rejected; MAE/RMSE/stderror/bias are invariant under subtracting a common per-case shift. Tied to "
-              "the real code by correspondence and the coordinate oracle; the extra-input equivalence is a metamorphic stream.")
+              "the real code by correspondence and the coordinate oracle. Proofs/C14Extra.lean: on the Data model, for a request "
+              "that contains the forecast, `-c K` (subtract) and K as an additional input have the same verified dimensions, "
+              "the same contributing cases in the same order (C14_extra_same_cases_partial, C14_extra_getScores_partial), "
+              "the -c values are the extra-input values minus K's forecast for obs / fcst and unchanged otherwise "
+              "(C14_extra_values), hence every ShiftInvariant score (generated m_mae, m_bias, m_rmse, m_stderror: "
+              "C14_shiftInvariant_metrics) of the two answers is equal, also through compute_from_obs_fcst "
+              "(C14_extra_score); the hypothesis `fcst requested` is necessary (C14_extra_needs_fcst, kernel-decided "
+              "witness replayed on the code); both runs construct together, num_inputs excludes K (C14_extra_init); with -C "
+              "a zero climatology, and in both modes a missing / infinite one, drops the case for every input "
+              "(C14_divide_zero_dropped, C14_missing_clim_dropped). The chain through the command line and -T are "
+              "implementation-only metamorphic streams.")
 TECHNIQUE = c01.TECHNIQUE
 
 
@@ -39,11 +67,31 @@ def gen_ops(tier, rng):
         yield "data.clim", dg.enc_op(ds, dg.all_requests(ds, dims, rng, 25))
         if k % 4 == 0:
             yield "data.climx", dg.enc_op(ds, [], head="dataclimx").rstrip()
+        if k % 4 == 2:
+            reqs = [r for r in dg.all_requests(ds, dims, rng, 40) if r[2] != "all"][:14]
+            yield "data.climcols", climx.enc_cols(ds, reqs)
+    yield "data.climwit", climx.WITNESS
+    for k in range(40 if tier == "quick" else 800):
+        ds = climx.inf_dataset(rng)
+        dims = dg.oracle_dims(ds)
+        if dims is None:
+            continue
+        yield "data.climinf", dg.enc_op(ds, dg.all_requests(ds, dims, rng, 20))
+    for k in range(24 if tier == "quick" else 400):
+        ds = climx.cli_dataset(rng)
+        T = rng.choice([None, None, 1, 2, 3])
+        yield "cli.climchain", climx.enc_cli(ds, rng.choice(["mae", "rmse", "bias", "stderror"]),
+                                             rng.choice(["no", "leadtime", "location", "time", "leadtimeday", "lat"]), T,
+                                             rng.randrange(10 ** 6))
 
 
 def impl(op):
     if op.startswith("dataclimx "):
         return dg.impl_clim_extra(op)
+    if op.startswith(("dataclimcols ", "dataclimwit ")):
+        return climx.impl_cols(op)
+    if op.startswith("climcli "):
+        return climx.impl_cli(op)
     return dg.impl_data(op)
 
 
@@ -62,7 +110,18 @@ def judge(op, impl_out, spec_out):
         if impl_out != "same":
             return ({"kind": "clim-vs-extra-input"}, impl_out[:400])
         return None
+    if op.startswith("climcli "):
+        if impl_out != "same":
+            return ({"kind": "clim-vs-extra-input", "what": "cli"}, impl_out[:400])
+        return None
+    if op.startswith(("dataclimcols ", "dataclimwit ")):
+        return climx.judge_cols(op, impl_out)
     return c01.judge(op, impl_out, spec_out)
 
 
-nontrivial = c01.nontrivial
+def nontrivial(op, impl_out):
+    if op.startswith(("dataclimcols ", "dataclimwit ")):
+        return climx.nontrivial_cols(op, impl_out)
+    if op.startswith("climcli "):
+        return True
+    return c01.nontrivial(op, impl_out)
